@@ -38,6 +38,10 @@ impl Shards {
                 r.insert(k.clone(), v.clone());
             }
         }
+        // everything before this scenario is on disk should the code under test abort the process
+        for f in self.files.iter_mut() {
+            let _ = f.flush();
+        }
         self.write(&rec);
         self.scenarios
     }
